@@ -1,4 +1,5 @@
 import StrumProofs.Lemmas.Overlap
+import StrumProofs.Source
 /-
 C01 — EnumString returns variant V iff the input is one of V's declared spellings.
 
@@ -234,6 +235,24 @@ theorem parse_never_disabled (d : EnumDef) (hphf : d.usePhf = false) (p : FromSt
     has a single `parse`, and the correspondence compares both entry points on every input. -/
 theorem ci_flag (d : EnumDef) (v : Variant) :
     d.ciOf v = (match v.ci with | some b => b | none => d.ci) := rfl
+
+/-! ### at source level (StrumProofs/Source.lean) -/
+
+/-- the spellings of a written variant: every `serialize` literal in source order, then the `to_string` literal; the
+    re-cased identifier only when neither is written -/
+theorem source_spellings (s : RawSource) (r : RawVariant) :
+    serializations s.declared.style r.declared =
+      (let a := serializesOf r.attrs.flatten ++ (lastOf VItem.toStr? r.attrs.flatten).toList
+       if a.isEmpty then [convertCase s.declared.style r.ident] else a) := rfl
+
+/-- **C01 at source level** (first-match form, no overlap hypothesis): on a collectable source without `use_phf`, parsing
+    returns the first written variant - enabled, not `default` - one of whose spellings the input is -/
+theorem source_parse (s : RawSource) (hphf : s.declared.usePhf = false) (p : FromStrImpl)
+    (hg : genFromStr s.declared = .ok p) (inp : Bytes) :
+    parse s.declared inp = .ok (match s.declared.candidates.find? (fun v => accepts s.declared v inp) with
+                                | some v => .ok v.ident (payloadOf v)
+                                | none => p.fall.eval inp) :=
+  parse_first_match s.declared hphf p hg inp
 
 /-! ### Non-vacuity: a concrete definition satisfying the hypotheses -/
 
